@@ -568,6 +568,11 @@ class FuncGen(ProgGen):
             elif x < 0.65:
                 prog.append(['assign', 'pf', C('systemPartial', V(name), *[self.expr(scope, 2) for _ in range(r.randint(1, 3))])])
                 prog.append(['assign', r.choice(self.vars), self.callexpr('pf', scope, r.randint(0, 3))])
+                if r.random() < 0.4:
+                    # a partial of a partial: earlier bound arguments stay in front of later ones
+                    prog.append(['assign', 'pf2', C('systemPartial', V('pf'), *[S(f'late{k}') for k in range(r.randint(1, 2))])])
+                    prog.append(['assign', r.choice(self.vars), self.callexpr('pf2', scope, r.randint(0, 2))])
+                    prog.append(['assign', r.choice(self.vars), self.callexpr('pf', scope, 1)])
             elif x < 0.75:
                 prog.append(['assign', 'arr', C('arrayNew', N(3), N(1), N(2), N(1))])
                 prog.append(['expr', C('arraySort', V('arr'), V(name))])
